@@ -20,7 +20,7 @@ Extraction "model.ml"
   Macro.macro_build
   PathApi.p_len PathApi.p_first_edge PathApi.p_last_edge PathApi.p_first_node PathApi.p_last_node PathApi.p_index PathApi.p_to_vec_edges PathApi.p_iter_nodes
   ConcClass.known_class
-  EdgeCmp.edge_eqb_d EdgeCmp.edge_eqb_u EdgeCmp.edge_cmp
+  EdgeCmp.edge_eqb_d EdgeCmp.edge_eqb_u EdgeCmp.edge_cmp EdgeCmp.edge_reverse
   Conc.init_config Conc.run_sched Conc.explore Conc.cstep Conc.prog_of
   Own.o_init Own.o_new Own.put_slot Own.drop_slot Own.grow_slot Own.remove_one Own.is_released Own.path_owns Own.strong
   Scc.scc Serde.decompose Serde.rebuild Serde.deserialize
